@@ -27,11 +27,116 @@ func sequential(r *lib.Report, tier string) (int64, int64, []interface{}) {
 	states, trans = s1+s2+s3, t1+t2+t3
 	// the adapters and the pattern lists once more in the same process (answers must not depend on what
 	// was evaluated before, e.g. through a cache of compiled patterns or a recycled buffer)
+	s6, t6 := arrayEquality(r)
+	s7, t7 := manyRegexes(r, tier)
+	states, trans = states+s6+s7, trans+t6+t7
 	var again []interface{}
 	_, t4 := adapters(r)
 	_, t5 := patterns(r, tier, &again)
 	trans += t4 + t5
 	return states, trans, samples
+}
+
+// arrayEquality: equality patterns holding ARRAYS (comparable values of a composite kind: == compares them element by
+// element) and structs with array fields; probes of the same and of other array types. All ordered lists of up to 2 of
+// the patterns, followed or not by Otherwise.
+func arrayEquality(r *lib.Report) (int64, int64) {
+	var states, trans int64
+	type uuid [16]byte
+	u1, u2 := uuid{1, 2, 3}, uuid{1, 2, 4}
+	type withArr struct{ A [2]int }
+	vals := []struct {
+		name string
+		v    interface{}
+	}{{"[2]int{0,0}", [2]int{0, 0}}, {"[2]int{1,2}", [2]int{1, 2}}, {"uuid{1,2,3}", u1}, {"[1]string{a}", [1]string{"a"}}, {"struct{[2]int{1,2}}", withArr{[2]int{1, 2}}}, {"[0]int{}", [0]int{}}}
+	probes := []probe{{"[2]int{0,0}", [2]int{0, 0}}, {"[2]int{1,2}", [2]int{1, 2}}, {"[2]int{2,1}", [2]int{2, 1}}, {"[3]int{1,2,0}", [3]int{1, 2, 0}}, {"[2]int64{1,2}", [2]int64{1, 2}},
+		{"uuid{1,2,3}", u1}, {"uuid{1,2,4}", u2}, {"[16]byte{1,2,3}", [16]byte{1, 2, 3}}, {"[1]string{a}", [1]string{"a"}}, {"[1]string{b}", [1]string{"b"}},
+		{"struct{[2]int{1,2}}", withArr{[2]int{1, 2}}}, {"struct{[2]int{2,2}}", withArr{[2]int{2, 2}}}, {"[0]int{}", [0]int{}}, {"[]int{1,2}", []int{1, 2}}, {"int 1", 1}, {"nil", nil}}
+	var specs []patSpec
+	for _, ev := range vals {
+		ev := ev
+		specs = append(specs, patSpec{"Equal(" + ev.name + ")", func(t string) fpgo.Pattern { return fpgo.InCaseOfEqual(ev.v, eff(t)) }, func(v interface{}) bool { return ev.v == v }})
+	}
+	var orders [][]int
+	for i := range specs {
+		orders = append(orders, []int{i})
+		for j := range specs {
+			if i != j {
+				orders = append(orders, []int{i, j})
+			}
+		}
+	}
+	for _, ord := range orders {
+		for other := 0; other < 2; other++ {
+			states++
+			var ps []fpgo.Pattern
+			var names []string
+			for _, i := range ord {
+				ps = append(ps, specs[i].mk(specs[i].name))
+				names = append(names, specs[i].name)
+			}
+			if other == 1 {
+				ps = append(ps, fpgo.Otherwise(eff("Otherwise")))
+				names = append(names, "Otherwise")
+			}
+			pm := fpgo.DefPattern(ps...)
+			for _, pb := range probes {
+				trans++
+				want := "PANIC"
+				if other == 1 {
+					want = "Otherwise:" + render(pb.v)
+				}
+				for _, i := range ord {
+					if specs[i].accepts(pb.v) {
+						want = specs[i].name + ":" + render(pb.v)
+						break
+					}
+				}
+				got := ""
+				if p := lib.Catch(func() { got = fmt.Sprint(pm.MatchFor(pb.v)) }); p != "" {
+					got = "PANIC"
+				}
+				if got != want {
+					r.Violation("C20|match-equal|array|probe="+pb.name, fmt.Sprintf("patterns %v, value %s: MatchFor gave %s, the first pattern whose value == the probe gives %s", names, pb.name, got, want),
+						map[string]interface{}{"patterns": names, "probe": pb.name, "got": got, "want": want})
+				}
+			}
+		}
+	}
+	return states, trans
+}
+
+// manyRegexes: N distinct regular-expression patterns used one after the other in the same process, then every one of
+// them again (three passes): each accepts exactly its own strings, whatever was compiled in between (a bounded cache
+// of compiled expressions would go wrong only after it wrapped).
+func manyRegexes(r *lib.Report, tier string) (int64, int64) {
+	var states, trans int64
+	n := 1100
+	if tier == "thorough" {
+		n = 70000
+	}
+	for pass := 0; pass < 3; pass++ {
+		for i := 0; i < n; i++ {
+			states++
+			rx := fmt.Sprintf("^k%dx+$", i)
+			pm := fpgo.DefPattern(fpgo.InCaseOfRegex(rx, eff("Regex")), fpgo.Otherwise(eff("Otherwise")))
+			for _, pr := range []struct {
+				v    string
+				want string
+			}{{fmt.Sprintf("k%dx", i), "Regex"}, {fmt.Sprintf("k%dxxx", i), "Regex"}, {fmt.Sprintf("k%dx", i+1), "Otherwise"}, {fmt.Sprintf("k%dx", (i+256)%n), "Otherwise"}, {fmt.Sprintf("k%d", i), "Otherwise"}} {
+				trans++
+				got := ""
+				if p := lib.Catch(func() { got = fmt.Sprint(pm.MatchFor(pr.v)) }); p != "" {
+					got = "PANIC " + p
+				}
+				if got != pr.want+":"+render(pr.v) {
+					r.Violation("C20|match|regex|after-many-patterns", fmt.Sprintf("pass %d, after %d other regular expressions: [Regex(%s), Otherwise] on %q gave %s, want %s", pass, pass*n+i, rx, pr.v, got, pr.want), nil)
+					return states, trans
+				}
+			}
+		}
+	}
+	return states, trans
 }
 
 // ---- Compose / Pipe ----
